@@ -69,7 +69,12 @@ class Gen:
             bs.append({'id': self.nid('b'), 'else': True, 'steps': [self.step(depth + 1) for _ in range(self.r.randint(0, 2))]})
         elif mode < 0.6 and n <= 2:
             need = self.r.sample([b['id'] for b in bs], self.r.randint(1, len(bs)))
-            bs.append({'id': self.nid('b'), 'needs': need, 'steps': [self.step(depth + 1) for _ in range(self.r.randint(0, 2))]})
+            nb1 = {'id': self.nid('b'), 'needs': need, 'steps': [self.step(depth + 1) for _ in range(self.r.randint(0, 2))]}
+            bs.append(nb1)
+            if self.r.random() < 0.5:
+                # a second needs branch, possibly chained on the first one (needs may run against declaration order)
+                need2 = [nb1['id']] if self.r.random() < 0.7 else [self.r.choice(bs[:-1])['id']]
+                bs.append({'id': self.nid('b'), 'needs': need2, 'steps': [self.step(depth + 1) for _ in range(self.r.randint(0, 1))]})
         self.r.shuffle(bs)
         return bs
 
@@ -82,6 +87,19 @@ class Gen:
         if self.r.random() < 0.5:
             body_acts.insert(0, {'id': 'ask', 'uses': IRQ, 'key': 'kask'})
         pre = [self.step(2) for _ in range(self.r.randint(0, 1))]
+        if self.r.random() < 0.5:
+            # a branch list with a needs (or else) branch that is re-entered in every iteration
+            k = self.nid('q')
+            waits = {'id': 'lw' + k, 'if': 'true', 'steps': [{'id': 'lws' + k, 'acts': [{'id': 'lwa' + k, 'uses': IRQ, 'key': 'klw'}]}]}
+            if self.r.random() < 0.6:
+                dep = {'id': 'ln' + k, 'needs': [waits['id']], 'steps': [{'id': 'lns' + k, 'acts': [{'id': 'lna' + k, 'uses': MSG, 'key': 'mln'}]}]}
+            else:
+                waits['if'] = 'false'
+                dep = {'id': 'ln' + k, 'else': True, 'steps': [{'id': 'lns' + k, 'acts': [{'id': 'lna' + k, 'uses': IRQ, 'key': 'kle'}]}]}
+            bl = [waits, dep]
+            if self.r.random() < 0.5:
+                bl.reverse()
+            pre.append({'id': 'lb' + k, 'branches': bl})
         steps = [
             {'id': 'init', 'acts': [{'id': 'ini', 'uses': 'acts.transform.code', 'params': '$set("i", 0);'}]},
             {'id': 'cond', 'branches': [
